@@ -14,7 +14,8 @@ import IronCalc.Text.Dates
 
   The model is the code *with* the fix commits of the agent-numbers repo branch:
   F19a (sign of `-$1e3`), F08b (non-finite → not a number),
-  F19c (sign on both sides of a currency), F19d (date fields are digits only), F19e (date range).
+  F19c (sign on both sides of a currency), F19d (date fields are digits only), F19e (date range),
+  F19f (an ISO year is four digits, not any four bytes).
   Defect F19b (misplaced group separators accepted) is NOT repaired (a repository test pins
   `1,234567`): the model is faithful to it (`groupCheckLenient`).
   No Mathlib.
@@ -254,7 +255,11 @@ def parseYear (s : List Char) : Option (Nat × List Char) :=
     else if y < 100 then some (1900 + y, ['y', 'y'])
     else some (y, ['y', 'y', 'y', 'y'])
 
-/-- which part is the day, the month, the year: ISO `yyyy-m-d` when the first part has four bytes,
+/-- the first part is an ISO year: four bytes, all of them digits (after fix F19f; the pinned code
+    only tested the length, so a four-letter month name such as `July` was taken for a year) -/
+def isoYear (p0 : List Char) : Bool := utf8Len p0 == 4 && allDigits p0
+
+/-- which part is the day, the month, the year: ISO `yyyy-m-d` when the first part is an ISO year,
     else the locale's order (`dates.date_formats.short.starts_with('d')`) -/
 def dateFields (iso dayFirst : Bool) (p0 p1 p2 : List Char) : List Char × List Char × List Char :=
   if iso then (p2, p1, p0) else if dayFirst then (p0, p1, p2) else (p1, p0, p2)
@@ -280,9 +285,9 @@ def parseDate (ℓ : Locale) (value : List Char) : Option (Nat × List Char) :=
   | some sep =>
     match splitOn sep value with
     | [p0, p1, p2] =>
-      if utf8Len p0 == 4 && !(allDigits p1 && allDigits p2) then none
+      if isoYear p0 && !(allDigits p1 && allDigits p2) then none
       else
-        match dateFields (utf8Len p0 == 4) ℓ.dayFirst p0 p1 p2 with
+        match dateFields (isoYear p0) ℓ.dayFirst p0 p1 p2 with
         | (dayS, monthS, yearS) =>
         match parseDay dayS with
         | none => none
@@ -298,7 +303,7 @@ def parseDate (ℓ : Locale) (value : List Char) : Option (Nat × List Char) :=
         | none => none
         | some serial =>
           if serial < 1 || serial > 2958465 then none      -- fix F19e
-          else some (serial.toNat, dateFormat (utf8Len p0 == 4) ℓ.dayFirst sep dayF monthF yearF)
+          else some (serial.toNat, dateFormat (isoYear p0) ℓ.dayFirst sep dayF monthF yearF)
     | _ => none
 
 /-! ### `parse_formatted_number` -/
